@@ -100,10 +100,11 @@ Local Open Scope Z_scope.
 Fixpoint digits_fuel (fuel : positive) (n : Z) (acc : list N) : list N :=
   if n <=? 0 then acc
   else
-    let acc' := Z.to_N (n mod 10) :: acc in
+    let '(q, r) := Z.div_eucl n 10 in
+    let acc' := Z.to_N r :: acc in
     match fuel with
     | xH => acc'
-    | xO f | xI f => digits_fuel f (n / 10) acc'
+    | xO f | xI f => digits_fuel f q acc'
     end.
 
 (** [] for n <= 0 *)
@@ -308,30 +309,45 @@ Definition sh_k (st : sh_state) : Z :=
   let t := Z.log2 H - Z.log2 (sh_S st) in
   sh_find_k 8 st ((t * 1233) / 4096 - 1).
 
-(** digit generation: at step n the candidates are q*10^(k-n) (round down) and
-    (q+1)*10^(k-n) (round up), q = floor(v / 10^(k-n)) *)
-Fixpoint sh_loop (fuel : nat) (st : sh_state) (k : Z) (n : Z) : option (list N) :=
+(** one decimal digit of mant/scale (< 10) by compare-and-subtract, like
+    dragon.rs's div_rem_upto_16 *)
+Definition small_div (mant scale : Z) : Z * Z :=
+  let s2 := 2 * scale in let s4 := 4 * scale in let s8 := 8 * scale in
+  let '(d, x) := if s8 <=? mant then (8, mant - s8) else (0, mant) in
+  let '(d, x) := if s4 <=? x then (d + 4, x - s4) else (d, x) in
+  let '(d, x) := if s2 <=? x then (d + 2, x - s2) else (d, x) in
+  if scale <=? x then (d + 1, x - scale) else (d, x).
+
+(** digit generation (the loop of dragon::format_shortest).  Invariant before
+    step n: v = (q + mant/scale) * 10^(k-n+1) where q is the integer formed by
+    the n-1 digits generated so far, v - low = minus/scale * 10^(k-n+1),
+    high - v = plus/scale * 10^(k-n+1).  After generating digit n the
+    candidates are q (round down, admissible iff q*10^(k-n) is inside the
+    interval) and q+1 (round up); with both admissible the closer one wins, a
+    tie goes up. *)
+Fixpoint sh_loop (fuel : nat) (incl : bool) (scale mant minus plus q : Z) : option Z :=
   match fuel with
   | O => None
   | S f =>
-      let sh := n - k in
-      let c := if 0 <=? sh then 10 ^ sh else 1 in
-      let B := if 0 <=? sh then sh_S st else sh_S st * 10 ^ (- sh) in
-      let A := sh_V st * c in
-      let q := A / B in
-      let r := A mod B in
-      let down := lt_or_le (sh_incl st) r (sh_Mi st * c) in
-      let up := lt_or_le (sh_incl st) (B - r) (sh_Pl st * c) in
+      let mant := 10 * mant in
+      let minus := 10 * minus in
+      let plus := 10 * plus in
+      let '(d, mant) := small_div mant scale in
+      let q := 10 * q + d in
+      let down := lt_or_le incl mant minus in
+      let up := lt_or_le incl (scale - mant) plus in
       if down || up then
-        Some (to_digits (if up && (negb down || (B <=? 2 * r)) then q + 1 else q))
-      else sh_loop f st k (n + 1)
+        Some (if up && (negb down || (scale <=? 2 * mant)) then q + 1 else q)
+      else sh_loop f incl scale mant minus plus q
   end.
 
 Definition shortest_search (m : positive) (e : Z) : option (list N * Z) :=
   let st := sh_init m e in
   let k := sh_k st in
-  match sh_loop 20 st k 1 with
-  | Some ds => Some (ds, k)
+  let c := if 0 <=? k then 1 else 10 ^ (- k) in
+  let scale := if 0 <=? k then sh_S st * 10 ^ k else sh_S st in
+  match sh_loop 20 (sh_incl st) scale (sh_V st * c) (sh_Mi st * c) (sh_Pl st * c) 0 with
+  | Some q => Some (to_digits q, k)
   | None => None
   end.
 
@@ -345,7 +361,7 @@ Definition exact_expansion (m : positive) (e : Z) : list N * Z :=
 (** does the positional text of 0.ds * 10^k parse back to +m*2^e ? *)
 Definition roundtrip_ok (m : positive) (e : Z) (ds : list N) (k : Z) : bool :=
   match parse_unsigned_sf (digits_to_dec_str ds k 0) with
-  | Some (S754_finite _ m' e') => Pos.eqb m m' && Z.eqb e e'
+  | Some (S754_finite s' m' e') => negb s' && Pos.eqb m m' && Z.eqb e e'
   | _ => false
   end.
 
@@ -364,8 +380,7 @@ Definition f64_digits_shortest (m : positive) (e : Z) : list N * Z :=
       are those of that integer (no digit at all when it is 0) and k is such
       that the value is 0.d1..dn * 10^k, i.e. k = n - p. *)
 Definition round_half_even_div (a b : Z) : Z :=
-  let q := a / b in
-  let r := a mod b in
+  let '(q, r) := Z.div_eucl a b in
   match 2 * r ?= b with
   | Lt => q
   | Gt => q + 1
